@@ -126,13 +126,15 @@ func checkC15(p *Program, r *Result) {
 }
 
 // checkRawReads implements C15.a for one function.
-func checkRawReads(p *Program, r *Result, fn *ssa.Function) {
+func checkRawReads(p *Program, r *Result, fn *ssa.Function) { checkRawReadsAs(p, r, fn, "C15.a") }
+
+func checkRawReadsAs(p *Program, r *Result, fn *ssa.Function, rule string) {
 	fname := funcName(fn)
 	for _, ci := range callsIn(fn, func(ssa.CallInstruction) bool { return true }) {
 		c := ci.Common()
 		pos := p.pos(ci.Pos())
 		if calleeIs(ci, "io.ReadFull", "io.ReadAll", "io.CopyN", "io.ReadAtLeast") {
-			r.held("C15.a", fname, "full read via "+trimPkg(staticCalleeName(c)), pos, "full-read primitive: loops until the buffer is filled or an error occurs")
+			r.held(rule, fname, "full read via "+trimPkg(staticCalleeName(c)), pos, "full-read primitive: loops until the buffer is filled or an error occurs")
 			continue
 		}
 		isRead := false
@@ -149,9 +151,9 @@ func checkRawReads(p *Program, r *Result, fn *ssa.Function) {
 			continue
 		}
 		if transparentReadWrapper(fn, ci) {
-			r.held("C15.a", fname, "raw "+label+" in transparent wrapper", pos, "Read wrapper returns the wrapped (n, err) unchanged for its own buffer argument")
+			r.held(rule, fname, "raw "+label+" in transparent wrapper", pos, "Read wrapper returns the wrapped (n, err) unchanged for its own buffer argument")
 		} else {
-			r.violated("C15.a", fname, "raw "+label, pos, "a single Read may return fewer bytes than requested; decoded content would depend on how the source delivers bytes")
+			r.violated(rule, fname, "raw "+label, pos, "a single Read may return fewer bytes than requested; decoded content would depend on how the source delivers bytes")
 		}
 	}
 }
